@@ -5,7 +5,7 @@ legs: MC   TLC: under EVERY interleaving of the per-row steps (NextRow, EvalBala
            row filters, interposed subqueries, aggregates) every thread emits exactly its serial rows -- 2 threads x 3
            rows and 3 threads x 2 rows exhaustively; non-interference and "no shared variable" as action properties;
            termination under weak fairness; EvalBalance split into lookup / compute / store (model-checked only).
-           Non-vacuity: on the mechanism as shipped (one process-wide entry) TLC finds the eviction schedule.
+           Non-vacuity: on the mechanism as shipped before fix 678e809 (one process-wide entry) TLC finds the eviction schedule.
       S2C  TLC enumerates ALL pause-point schedules (2 threads x 3 rows x 2 pauses: C(14,7) = 3432; 3 threads x 2 rows
            x 1 pause: 1680; mixes with an interposed subquery, a row filter and an aggregate; simulated 3 x 3 x 2) as
            grant sequences with the rows every thread must return.  harness/sched.py replays them deterministically
@@ -14,8 +14,8 @@ legs: MC   TLC: under EVERY interleaving of the per-row steps (NextRow, EvalBala
            specification and with the serial results of the code.
       C2S  seeded runs of 2..4 threads with random programs; the scheduler picks the next thread itself and logs the
            grants; Trace_Balance replays the log through the actions of Balance and judges the rows.
-      A mismatch is replayed by TLC on the mechanism AS SHIPPED: only if that explains the observation exactly it is the
-      known finding.
+      A mismatch is replayed by TLC on the mechanism as shipped before fix 678e809 (one process-wide cache entry): if that
+      explains the observation exactly the violation gets the key of that defect (listed as fixed in known_findings.d).
 """
 import json
 import random
@@ -376,12 +376,32 @@ def run(ctx):
         n += replay_config(ctx, 'mix2', 'Gen_Balance_mix2.cfg', 2, rng, suspects)
     n += replay_config(ctx, '3x3', 'Gen_Balance_3x3.cfg', 3, rng, suspects, limit=100 if q else 6000,
                        simulate=200 if q else 8000)
-    ctx.leg('S2C', replays=n)
-    ctx.exhaustive = not q
+    ctx.leg('S2C', replays=n, all_schedules_of_the_enumerated_configurations_replayed=not q,
+            note='3x3 (3 threads x 3 rows x 2 pauses) is sampled by simulation in both tiers')
+    ctx.exhaustive = False
     # ---- C2S
     nruns = ctx.pick(150, 2500)
     lines, meta = record_runs(ctx, nruns, rng, suspects)
-    res, verdicts = run_trace(ctx, lines, 'Trace_Balance.cfg', 'C2S', 'c20_trace.ndjson')
+    # binding self-test: a copy of one recorded run with ONE number of its results changed must be rejected
+    import copy
+    probe = []
+    for rid, m in sorted(meta.items()):
+        rows = [hb.rows_to_trace(m['rows'][t], 1) for t in range(1, len(m['progs']) + 1)]
+        hit = [(t, n, j) for t, rs in enumerate(rows) for n, r in enumerate(rs) for j, v in enumerate(r[1]) if v]
+        if hit:
+            t, n, j = hit[-1]
+            rows = copy.deepcopy(rows)
+            rows[t][n][1][j][0][1] += 1
+            probe = [{'k': 'begin', 'id': -1, 'progs': [hb.prog_to_trace(p) for p in m['progs']]}]
+            probe += [{'k': 'grant', 'id': -1, 't': t_} for t_ in m['grants']]
+            probe.append({'k': 'end', 'id': -1, 'rows': rows})
+            break
+    res, verdicts = run_trace(ctx, lines + probe, 'Trace_Balance.cfg', 'C2S', 'c20_trace.ndjson')
+    if probe and not res.violated:
+        if not any(p.get('verdict') == 'rejected' and p['id'] == -1 for p in verdicts):
+            raise MachineryError('binding self-test: the corrupted copy of a recorded run was not rejected')
+        verdicts = [p for p in verdicts if p.get('id') != -1]
+        ctx.leg('C2S', corrupted_runs_rejected=1)
     if res.violated:
         ctx.violation('threads:trace-invariant:' + ','.join(res.violated), 'an invariant of Balance fails on a recorded run',
                       {'behaviour': res.behaviour[:2000]}, 'C2S')
